@@ -92,6 +92,10 @@ CouponHashSet<A>* CouponHashSet<A>::newSet(const void* bytes, size_t len, const 
   if (lgArrInts < hll_constants::LG_INIT_SET_SIZE) {
     lgArrInts = HllUtil<>::computeLgArrInts(SET, couponCount, lgK);
   }
+  if (lgArrInts > lgK) { // a set is promoted to HLL long before its array reaches k slots
+    throw std::invalid_argument("Possible corruption: coupon array size 2^" + std::to_string(lgArrInts)
+                                + " for lgConfigK " + std::to_string(lgK));
+  }
   // Don't set couponCount in sketch here;
   // we'll set later if updatable, and increment with updates if compact
   const uint32_t couponsInArray = (compactFlag ? couponCount : (1 << lgArrInts));
@@ -111,7 +115,11 @@ CouponHashSet<A>* CouponHashSet<A>::newSet(const void* bytes, size_t len, const 
     uint32_t coupon;
     for (uint32_t i = 0; i < couponCount; ++i, curPos += sizeof(coupon)) {
       std::memcpy(&coupon, curPos, sizeof(coupon));
-      sketch->couponUpdate(coupon);
+      HllSketchImpl<A>* result = sketch->couponUpdate(coupon);
+      if (result != sketch) { // more coupons than a set of this lgConfigK holds: the update promoted to HLL
+        result->get_deleter()(result);
+        throw std::invalid_argument("Possible corruption: too many coupons for a set");
+      }
     }
   } else {
     sketch->coupons_.resize(1ULL << lgArrInts);
@@ -159,6 +167,10 @@ CouponHashSet<A>* CouponHashSet<A>::newSet(std::istream& is, const A& allocator)
   if (lgArrInts < hll_constants::LG_INIT_SET_SIZE) {
     lgArrInts = HllUtil<>::computeLgArrInts(SET, couponCount, lgK);
   }
+  if (lgArrInts > lgK) { // a set is promoted to HLL long before its array reaches k slots
+    throw std::invalid_argument("Possible corruption: coupon array size 2^" + std::to_string(lgArrInts)
+                                + " for lgConfigK " + std::to_string(lgK));
+  }
 
   ChsAlloc chsa(allocator);
   CouponHashSet<A>* sketch = new (chsa.allocate(1)) CouponHashSet<A>(lgK, tgtHllType, allocator);
@@ -170,7 +182,11 @@ CouponHashSet<A>* CouponHashSet<A>::newSet(std::istream& is, const A& allocator)
   if (compactFlag) {
     for (uint32_t i = 0; i < couponCount; ++i) {
       const auto coupon = read<uint32_t>(is);
-      sketch->couponUpdate(coupon);
+      HllSketchImpl<A>* result = sketch->couponUpdate(coupon);
+      if (result != sketch) { // more coupons than a set of this lgConfigK holds: the update promoted to HLL
+        result->get_deleter()(result);
+        throw std::invalid_argument("Possible corruption: too many coupons for a set");
+      }
     }
   } else {
     sketch->coupons_.resize(1ULL << lgArrInts);
